@@ -226,22 +226,48 @@ func checkProgress(m *oracle.Model, cs *spec.Case, events []sched.Event, cycle i
 	}
 	u := oracle.NewQueueUsage(m)
 	placed := map[string]string{} // pod group -> action that bound / nominated it
-	evictedBy := map[string]string{}
+	evicted := map[string]bool{}
 	evictAction := map[string]string{}
+	// three views of the per-queue allocation: at cycle start, and an upper / lower bound that holds at every moment
+	// of the cycle (hi ignores evictions, lo ignores placements). The non-preemptible allocation only grows.
+	type view struct{ alloc, allocNP map[string]oracle.Res }
+	clone := func(a map[string]oracle.Res) map[string]oracle.Res {
+		c := map[string]oracle.Res{}
+		for k, v := range a {
+			c[k] = v
+		}
+		return c
+	}
+	startV := view{u.Alloc, u.AllocNP}
+	hiV := view{clone(u.Alloc), clone(u.AllocNP)}
+	loV := view{clone(u.Alloc), clone(u.AllocNP)}
 	for i := range events {
 		e := &events[i]
+		pg, ok := m.PodGroups[e.Group]
+		if !ok {
+			continue
+		}
+		np := !m.Preemptible(pg)
 		switch e.Kind {
 		case "bind", "pipeline":
 			if _, dup := placed[e.Group]; !dup {
 				placed[e.Group] = e.Action
 			}
+			for _, q := range m.QueuePath(pg.Spec.Queue) {
+				hiV.alloc[q.Name] = hiV.alloc[q.Name].Add(charge)
+				if np {
+					hiV.allocNP[q.Name] = hiV.allocNP[q.Name].Add(charge)
+				}
+			}
 		case "evict":
-			evictedBy[e.Group] = strings.TrimPrefix(e.Preemptor, "ns/")
-			evictAction[e.Group] = e.EvictAction
+			evicted[e.Group] = true
+			evictAction[e.Group] = e.EvictAction + " for " + strings.TrimPrefix(e.Preemptor, "ns/")
 			st.Inc("progress_evictions_" + e.EvictAction)
+			for _, q := range m.QueuePath(pg.Spec.Queue) {
+				loV.alloc[q.Name] = loV.alloc[q.Name].Sub(charge)
+			}
 		}
 	}
-	// free slots: the statement is about a full cluster; with free capacity allocate must place (clause a)
 	var pendings, runnings []*unitWorkload
 	byQueue := map[string][]*unitWorkload{}
 	for _, w := range ws {
@@ -258,40 +284,72 @@ func checkProgress(m *oracle.Model, cs *spec.Case, events []sched.Event, cycle i
 	st.Add("progress_pending_workloads", len(pendings))
 	st.Add("progress_running_workloads", len(runnings))
 	limits := func(q *enginev2.Queue) (oracle.Res, oracle.Res) { return oracle.QueueLimits(q) }
+	var allQueues []string
+	for _, q := range m.O.Queues {
+		allQueues = append(allQueues, q.Name)
+	}
+	sort.Strings(allQueues)
+
+	// orderedBefore: pending workload a of the same leaf queue is popped before b (priority, then creation time)
+	orderedBefore := func(a, b *unitWorkload) bool {
+		if a.prio != b.prio {
+			return a.prio > b.prio
+		}
+		return !a.pg.CreationTimestamp.Time.After(b.pg.CreationTimestamp.Time)
+	}
+	podSig := func(w *unitWorkload) string {
+		pr := ""
+		if w.pod.Spec.Priority != nil {
+			pr = fmt.Sprint(*w.pod.Spec.Priority)
+		}
+		return w.pod.Spec.PriorityClassName + "/" + pr
+	}
+	// cause classifies a missing progress for the signature: with scheduling signatures on, a job of the same leaf queue
+	// with the same pod-level scheduling signature that is tried earlier and cannot succeed for a reason of its own
+	// (it is not eligible) makes the action skip the eligible one.
+	cause := func(w *unitWorkload, eligible map[string]bool) string {
+		if !m.Cfg.UseSchedulingSignatures {
+			return "plain"
+		}
+		for _, o := range byQueue[w.pg.Spec.Queue] {
+			if !o.running && o != w && !eligible[o.pg.Name] && orderedBefore(o, w) && podSig(o) == podSig(w) {
+				return "after-failed-same-signature-job"
+			}
+		}
+		return "plain"
+	}
 
 	var out []run.Violation
 	var wits []any
 	sigTail := fmt.Sprintf("%s:%s:signatures=%v", variant, structure, m.Cfg.UseSchedulingSignatures)
 
 	// ------------------------------------------------------------------ (b) reclaim progress
-	// over-quota victim queues: leaf V with a preemptible running workload
-	victimLeaves := []string{}
-	for _, qn := range sortedKeys(byQueue) {
-		for _, w := range byQueue[qn] {
-			if w.running && w.preempt {
-				victimLeaves = append(victimLeaves, qn)
-				break
-			}
-		}
-	}
-	var eligibleB []*unitWorkload
-	whyB := map[string]string{}
-	for _, w := range pendings {
+	// eligibleB: is w eligible when the reclaimer side is read from view r and the victim side from view v, with the
+	// given predicate for "this running workload can still be taken"?
+	eligibleB := func(w *unitWorkload, r, v view, available func(*unitWorkload) bool) (bool, string) {
 		rq := w.pg.Spec.Queue
 		rpath := m.QueuePath(rq)
-		// limits and the non-preemptible rule at every level
-		ok := true
-		for _, q := range rpath {
+		for _, q := range rpath { // the non-preemptible rule holds at every level
 			_, quota := limits(q)
-			if !w.preempt && !fitsUnder(u.AllocNP[q.Name], charge, quota) {
-				ok = false
+			if !w.preempt && !fitsUnder(r.allocNP[q.Name], charge, quota) {
+				return false, ""
 			}
 		}
-		if !ok {
-			continue
+		inR := map[string]bool{}
+		for _, q := range rpath {
+			inR[q.Name] = true
 		}
-		for _, vq := range victimLeaves {
+		for _, vq := range sortedKeys(byQueue) {
 			if vq == rq {
+				continue
+			}
+			has := false
+			for _, x := range byQueue[vq] {
+				if x.preempt && available(x) {
+					has = true
+				}
+			}
+			if !has {
 				continue
 			}
 			vpath := m.QueuePath(vq)
@@ -299,23 +357,18 @@ func checkProgress(m *oracle.Model, cs *spec.Case, events []sched.Event, cycle i
 			for _, q := range vpath {
 				inV[q.Name] = true
 			}
-			inR := map[string]bool{}
-			for _, q := range rpath {
-				inR[q.Name] = true
-			}
 			good := true
-			// reclaimer side: within deserved quota from the leaf up to the level below the common ancestor
+			// reclaimer side: within deserved quota (and limit) from the leaf up to the level below the common ancestor
 			for _, q := range rpath {
+				limit, quota := limits(q)
 				if inV[q.Name] {
-					// common ancestor: the swap keeps its allocation; it must not already exceed its limit
-					limit, _ := limits(q)
-					if !underLimit(u.Alloc[q.Name], limit, charge) {
+					// common ancestor: the exchange keeps its allocation; it must not already exceed its limit
+					if !underLimit(r.alloc[q.Name], limit, charge) {
 						good = false
 					}
 					continue
 				}
-				limit, quota := limits(q)
-				if !fitsUnder(u.Alloc[q.Name], charge, quota) || !fitsUnder(u.Alloc[q.Name], charge, limit) {
+				if !fitsUnder(r.alloc[q.Name], charge, quota) || !fitsUnder(r.alloc[q.Name], charge, limit) {
 					good = false
 				}
 			}
@@ -325,24 +378,32 @@ func checkProgress(m *oracle.Model, cs *spec.Case, events []sched.Event, cycle i
 					continue
 				}
 				_, quota := limits(q)
-				if !above(u.Alloc[q.Name], quota) {
+				if !above(v.alloc[q.Name], quota) {
 					good = false
 				}
 			}
 			if good {
-				eligibleB = append(eligibleB, w)
-				whyB[w.pg.Name] = fmt.Sprintf("queue %s stays within deserved quota with it; queue %s is above its deserved quota and runs a preemptible workload", rq, vq)
-				break
+				return true, fmt.Sprintf("queue %s stays within deserved quota with it; queue %s is above its deserved quota and runs a preemptible workload", rq, vq)
 			}
 		}
+		return false, ""
 	}
-	if len(eligibleB) > 0 {
-		st.Inc("reclaim_situations_judged")
-		st.Add("reclaim_eligible_workloads", len(eligibleB))
-		st.NonTrivial = true
+	always := func(x *unitWorkload) bool { return x.running }
+	notEvicted := func(x *unitWorkload) bool { return x.running && !evicted[x.pg.Name] }
+	var eligB []*unitWorkload
+	eligBNames := map[string]bool{}
+	for _, w := range pendings {
+		if ok, _ := eligibleB(w, startV, startV, always); ok {
+			eligB = append(eligB, w)
+			eligBNames[w.pg.Name] = true
+		}
+	}
+	if len(eligB) > 0 {
+		st.Inc("reclaim_situations_found")
+		st.Add("reclaim_eligible_workloads", len(eligB))
 		done := false
 		var names []string
-		for _, w := range eligibleB {
+		for _, w := range eligB {
 			names = append(names, w.pg.Name)
 			if a, ok := placed[w.pg.Name]; ok {
 				done = true
@@ -350,65 +411,95 @@ func checkProgress(m *oracle.Model, cs *spec.Case, events []sched.Event, cycle i
 			}
 		}
 		if done {
+			st.Inc("reclaim_situations_judged")
 			st.Inc("reclaim_progress_seen")
+			st.NonTrivial = true
 		} else {
-			w := eligibleB[0]
-			var qs []string
-			for _, q := range m.O.Queues {
-				qs = append(qs, q.Name)
+			// still eligible under the bounds that hold at every moment of the cycle (nobody else used up the victims
+			// or the reclaimer's quota)?
+			var robust *unitWorkload
+			whyW := ""
+			for _, w := range eligB {
+				if ok, why := eligibleB(w, hiV, loV, notEvicted); ok {
+					robust, whyW = w, why
+					break
+				}
 			}
-			sort.Strings(qs)
-			wits = append(wits, ProgressWitness{Clause: "reclaim", Workload: w.pg.Name, Queue: w.pg.Spec.Queue, Victims: victimLeaves, Why: whyB[w.pg.Name]})
-			out = append(out, oracle.Viol("C05", "reclaim-progress", sigTail, cycle,
-				"no eligible pending workload was nominated or bound in one full cycle: eligible %v (e.g. %s in queue %s, %s: %s); evictions seen in the cycle: %v; placed: %v; queue usage (own model): %s; scheduler's view at session open:%s",
-				names, w.pg.Name, w.pg.Spec.Queue, preemptWord(m, w.pg), whyB[w.pg.Name], evictAction, placed, usageString(m, u), diag.queues(qs...)))
+			if robust == nil {
+				st.Inc("reclaim_not_judged:victims-or-quota-used-by-others")
+			} else {
+				st.Inc("reclaim_situations_judged")
+				st.NonTrivial = true
+				w := robust
+				wits = append(wits, ProgressWitness{Clause: "reclaim", Workload: w.pg.Name, Queue: w.pg.Spec.Queue, Why: whyW})
+				cz := cause(w, eligBNames)
+				if cz == "plain" {
+					// is there a preemptible running workload elsewhere that is NOT a legitimate victim for w? (With
+					// AllowConsolidatingReclaim=false the reclaim validator is handed every accumulated potential victim;
+					// with true the solver still evicts every potential victim of a node and lets the fairness order pick.)
+					for _, x := range ws {
+						if !x.preempt || x.pg.Spec.Queue == w.pg.Spec.Queue || !leafOK(m, x.pg.Spec.Queue, hasChild) {
+							continue
+						}
+						only := func(y *unitWorkload) bool { return y == x }
+						if x.running {
+							if ok, _ := eligibleB(w, startV, startV, only); !ok {
+								cz = "non-reclaimable-potential-victims-present"
+								break
+							}
+						} else if _, nominated := placed[x.pg.Name]; nominated {
+							// a workload nominated earlier in this cycle is a potential victim as well
+							if ok, _ := eligibleB(w, hiV, hiV, only); !ok {
+								cz = "non-reclaimable-potential-victims-present"
+								break
+							}
+						}
+					}
+				}
+				cz += fmt.Sprintf(":consolidating-reclaim=%v", m.Cfg.AllowConsolidatingReclaim)
+				out = append(out, oracle.Viol("C05", "reclaim-progress", cz+":"+sigTail, cycle,
+					"no eligible pending workload was nominated or bound in one full cycle: eligible at cycle start %v; %s in queue %s (%s) is eligible at every moment of the cycle: %s; evictions seen in the cycle: %v; placed: %v; queue usage at cycle start (own model): %s; scheduler's view at session open:%s",
+					names, w.pg.Name, w.pg.Spec.Queue, preemptWord(m, w.pg), whyW, evictAction, placed, usageString(m, u), diag.queues(allQueues...)))
+			}
 		}
 	} else if len(pendings) > 0 {
 		st.Inc("reclaim_no_eligible_pair")
 	}
 
 	// ------------------------------------------------------------------ (c) preempt progress
+	eligibleC := func(w *unitWorkload, r view, available func(*unitWorkload) bool) []*unitWorkload {
+		qn := w.pg.Spec.Queue
+		for _, q := range m.QueuePath(qn) {
+			limit, quota := limits(q)
+			// the exchange keeps the allocation of the queue and every ancestor: it must be within the limit already
+			if !underLimit(r.alloc[q.Name], limit, charge) {
+				return nil
+			}
+			if !w.preempt && !fitsUnder(r.allocNP[q.Name], charge, quota) {
+				return nil
+			}
+		}
+		var vs []*unitWorkload
+		for _, v := range byQueue[qn] {
+			if v.running && v.preempt && v.prio < w.prio && available(v) {
+				vs = append(vs, v)
+			}
+		}
+		return vs
+	}
 	for _, qn := range sortedKeys(byQueue) {
-		path := m.QueuePath(qn)
 		var eligible []*unitWorkload
-		victimsOf := map[string][]string{}
-		allVictims := map[string]*unitWorkload{}
+		eligibleNames := map[string]bool{}
 		for _, w := range byQueue[qn] {
-			if w.running {
-				continue
-			}
-			ok := true
-			for _, q := range path {
-				limit, quota := limits(q)
-				// the swap keeps the allocation of every ancestor: it must be within the limit already
-				if !underLimit(u.Alloc[q.Name], limit, charge) {
-					ok = false
-				}
-				if !w.preempt && !fitsUnder(u.AllocNP[q.Name], charge, quota) {
-					ok = false
-				}
-			}
-			if !ok {
-				continue
-			}
-			for _, v := range byQueue[qn] {
-				if v.running && v.preempt && v.prio < w.prio {
-					victimsOf[w.pg.Name] = append(victimsOf[w.pg.Name], v.pg.Name)
-					allVictims[v.pg.Name] = v
-				}
-			}
-			if len(victimsOf[w.pg.Name]) > 0 {
+			if !w.running && len(eligibleC(w, startV, always)) > 0 {
 				eligible = append(eligible, w)
+				eligibleNames[w.pg.Name] = true
 			}
 		}
 		if len(eligible) == 0 {
 			continue
 		}
 		st.Inc("preempt_situations_found")
-		eligibleNames := map[string]bool{}
-		for _, w := range eligible {
-			eligibleNames[w.pg.Name] = true
-		}
 		done := false
 		for _, w := range eligible {
 			if a, ok := placed[w.pg.Name]; ok {
@@ -422,46 +513,43 @@ func checkProgress(m *oracle.Model, cs *spec.Case, events []sched.Event, cycle i
 			st.NonTrivial = true
 			continue
 		}
-		// victims taken away earlier in the cycle by somebody who is not one of the eligible workloads
-		// (another queue's reclaim): then nothing is demanded of this queue
-		stillThere := false
+		var robust *unitWorkload
+		var victims []*unitWorkload
 		for _, w := range eligible {
-			for _, vn := range victimsOf[w.pg.Name] {
-				if by, gone := evictedBy[vn]; !gone || eligibleNames[by] {
-					stillThere = true
-				}
+			if vs := eligibleC(w, hiV, notEvicted); len(vs) > 0 {
+				robust, victims = w, vs
+				break
 			}
 		}
-		if !stillThere {
-			st.Inc("preempt_not_judged:victims-taken-by-other-queues")
+		if robust == nil {
+			st.Inc("preempt_not_judged:victims-or-quota-used-by-others")
 			continue
 		}
 		st.Inc("preempt_situations_judged")
 		st.NonTrivial = true
-		w := eligible[0]
+		w := robust
 		var names []string
 		for _, e := range eligible {
 			names = append(names, fmt.Sprintf("%s(prio %d,%s)", e.pg.Name, e.prio, preWord(e.preempt)))
 		}
 		var vs []string
-		for _, vn := range sortedKeys(allVictims) {
-			v := allVictims[vn]
-			vs = append(vs, fmt.Sprintf("%s(prio %d on %s)", vn, v.prio, v.pod.Spec.NodeName))
+		for _, v := range victims {
+			vs = append(vs, fmt.Sprintf("%s(prio %d on %s)", v.pg.Name, v.prio, v.pod.Spec.NodeName))
 		}
 		var others []string
 		for _, o := range byQueue[qn] {
 			if !o.running && !eligibleNames[o.pg.Name] {
-				others = append(others, fmt.Sprintf("%s(prio %d,%s)", o.pg.Name, o.prio, preWord(o.preempt)))
+				others = append(others, fmt.Sprintf("%s(prio %d,%s,class %s)", o.pg.Name, o.prio, preWord(o.preempt), o.pod.Spec.PriorityClassName))
 			}
 		}
 		var qs []string
-		for _, q := range path {
+		for _, q := range m.QueuePath(qn) {
 			qs = append(qs, q.Name)
 		}
 		wits = append(wits, ProgressWitness{Clause: "preempt", Workload: w.pg.Name, Queue: qn, Victims: vs, Why: "strictly lower-priority preemptible running workloads in the same queue"})
-		out = append(out, oracle.Viol("C05", "preempt-progress", sigTail, cycle,
-			"queue %s: none of the eligible pending workloads %v was nominated or bound in one full cycle although strictly lower-priority preemptible workloads run in the same queue: %v (other pending workloads of the queue, not eligible: %v); evictions seen: %v; placed: %v; queue usage (own model): %s; scheduler's view at session open:%s",
-			qn, names, vs, others, evictAction, placed, usageString(m, u), diag.queues(qs...)))
+		out = append(out, oracle.Viol("C05", "preempt-progress", cause(w, eligibleNames)+":"+sigTail, cycle,
+			"queue %s: none of the eligible pending workloads %v was nominated or bound in one full cycle; %s (priority %d, %s, pod priority class %q) is eligible at every moment of the cycle: strictly lower-priority preemptible workloads of the same queue kept running: %v (other pending workloads of the queue, not eligible: %v); evictions seen: %v; placed: %v; queue usage at cycle start (own model): %s; scheduler's view at session open:%s",
+			qn, names, w.pg.Name, w.prio, preWord(w.preempt), w.pod.Spec.PriorityClassName, vs, others, evictAction, placed, usageString(m, u), diag.queues(qs...)))
 	}
 	return out, wits
 }
